@@ -64,7 +64,7 @@ def inject (d : Data) : St :=
     counter := d.counter
     next := d.next }
 
-def extract (s : St) (old : Data) (touched : List Nat) : Data :=
+def extract (s : St) (old : Data) (touched : List Nat) (dTouched : Bool := true) : Data :=
   let n := s.next
   let rng := Array.range n
   let md := ((List.range (n - old.next)).map (· + old.next)).foldl (fun m o => max m ((s.defs o).foldl max 0 + 1)) (max old.md old.dassigned.size)
@@ -77,8 +77,10 @@ def extract (s : St) (old : Data) (touched : List Nat) : Data :=
     cacheBk := rng.map (fun o => s.cacheBk o)
     grid := rng.map (fun o => s.grid o)
     gridBk := rng.map (fun o => s.gridBk o)
-    dassigned := (Array.range md).map (fun x => s.dassigned x)
-    dbackup := (Array.range md).map (fun x => s.dbackup x)
+    -- (requests that cannot change a definition's flag / back-up chain keep the stored arrays; ids beyond their
+    -- size read as the initial defaults on both sides)
+    dassigned := if dTouched then (Array.range md).map (fun x => s.dassigned x) else old.dassigned
+    dbackup := if dTouched then (Array.range md).map (fun x => s.dbackup x) else old.dbackup
     defs := rng.map (fun o => s.defs o)
     readOnly := rng.map (fun o => s.readOnly o)
     serial := rng.map (fun o => s.serial o)
@@ -93,10 +95,25 @@ def touchedOf (s : St) (ws : List String) : List Nat :=
   | ["setrow", o, _, _, _] => (parseNat? o).toList
   | ["init", o, _, _] => (parseNat? o).toList
   | ["exit", objs, _] => (parseNatList? objs).getD []
+  | ["exitm", objs, _, _] => (parseNatList? objs).getD []
   | ["deepcopy", objs] => (List.range ((parseNatList? objs).getD []).length).map (· + s.next)
   | ["pickle", objs] => (List.range ((parseNatList? objs).getD []).length).map (· + s.next)
   | ["create", _, _] => [s.next]
   | _ => []
+
+/-- a material (an object without parameter collection and grid): only its cache and cache back-up chain are
+observable -/
+def showMat (s : St) (keys : List Nat) (m : Nat) : String :=
+  "c" ++ showList (fun k => match s.cache m k with | none => "_" | some v => toString v) keys ++
+  " cb" ++ toString (s.cacheBk m).length
+
+def showMats (s : St) (ms : List Nat) : String := ";".intercalate (ms.map (showMat s cacheKeys))
+
+/-- requests after which definition-level state may differ -/
+def dTouchedOf (ws : List String) : Bool :=
+  match ws.head? with
+  | some w => ["set", "setrow", "setrefuse", "enter", "enterm", "exit", "exitm", "dset", "dsetall", "reset"].contains w
+  | none => true
 
 def showObjs (s : St) (objs : List Nat) : String := ";".intercalate (objs.map (showObj s cacheKeys))
 
@@ -107,6 +124,17 @@ def parseGrid? (w : String) : Option (Option GridVal) :=
   match parseNatList? w with
   | some [a, b, c] => some (some (a, b, c))
   | _ => none
+
+/-- `p:c,c,c;p:c` (or `-` for no child lists) -/
+def parseKids? (w : String) : Option (List (Nat × List Nat)) :=
+  if w = "-" then some [] else
+  (w.splitOn ";").mapM (fun part =>
+    match part.splitOn ":" with
+    | [p, cs] => do
+        let p ← parseNat? p
+        let cs ← parseNatList? ("[" ++ cs ++ "]")
+        some (p, cs)
+    | _ => none)
 
 def stepLine (s : St) (ws : List String) : St × String :=
   let bad := (s, "bad-op")
@@ -151,9 +179,31 @@ def stepLine (s : St) (ws : List String) : St × String :=
   | ["enter", objs] => match parseNatList? objs with
       | some objs =>
         if inR s objs then
-          if objs.any s.readOnly then (s, "reject")
-          else let t := enter s objs; (t, "ok " ++ showObjs t objs)
+          let r := tryEnter s objs
+          if r.2 then (r.1, "ok " ++ showObjs r.1 objs) else (r.1, "reject")
         else bad
+      | _ => bad
+  -- StateRetainer over objects AND their materials (`_enterExitHelper`: composite, its material, then
+  -- iterChildrenWithMaterials(deep=True)); materials are objects without definitions / grid
+  | ["enterm", objs, mats] => match parseNatList? objs, parseNatList? mats with
+      | some objs, some mats =>
+        if inR s (objs ++ mats) then
+          let r := tryEnter s (objs ++ mats)
+          if r.2 then (r.1, "ok " ++ showObjs r.1 objs ++ " | " ++ showMats r.1 mats) else (r.1, "reject")
+        else bad
+      | _, _ => bad
+  | ["exitm", objs, mats, keep] => match parseNatList? objs, parseNatList? mats, parseNatList? keep with
+      | some objs, some mats, some keep =>
+        if inR s (objs ++ mats) then
+          if (objs ++ mats).any (fun o => (s.backup o).isEmpty) then (s, "reject")
+          else let t := exit s (objs ++ mats) keep; (t, "ok " ++ showObjs t objs ++ " | " ++ showMats t mats)
+        else bad
+      | _, _, _ => bad
+  | ["mcache", m, k, v] => match parseNat? m, parseNat? k, parseNat? v with
+      | some m, some k, some v => if inR s [m] then let t := setCache s m k v; (t, "ok " ++ showMat t cacheKeys m) else bad
+      | _, _, _ => bad
+  | ["mdump", ms] => match parseNatList? ms with
+      | some ms => if inR s ms then (s, showMats s ms) else bad
       | _ => bad
   | ["exit", objs, keep] => match parseNatList? objs, parseNatList? keep with
       | some objs, some keep =>
@@ -178,6 +228,21 @@ def stepLine (s : St) (ws : List String) : St × String :=
       | _ => bad
   | ["readonly", objs] => match parseNatList? objs with
       | some objs => if inR s objs then let t := makeReadOnly s objs; (t, "ok " ++ showObjs t objs) else bad
+      | _ => bad
+  -- makeParametersReadOnly as the walk the code performs: `readonlytree <root> <p:c,c;p:c;...>` (child lists); answers the
+  -- read-only flag of every object created so far
+  | ["readonlytree", r, ks] => match parseNat? r, parseKids? ks with
+      | some r, some tbl =>
+        if inR s [r] ∧ tbl.all (fun pc => inR s (pc.1 :: pc.2)) then
+          let kids := fun n => match tbl.find? (fun pc => pc.1 == n) with | some pc => pc.2 | none => []
+          let t := makeReadOnlyTree s kids (s.next + 1) r
+          let reach := iterDeep kids (s.next + 1) r
+          let shown := (List.range s.next).filter (fun o => o == r || reach.contains o)
+          (t, "ok " ++ " ".intercalate (shown.map (fun o => toString o ++ showBool (t.readOnly o))))
+        else bad
+      | _, _ => bad
+  | ["unlock", o] => match parseNat? o with
+      | some o => if inR s [o] then let r := unlock s o; (r.1, (if r.2 then "ok " else "reject ") ++ showObj r.1 cacheKeys o) else bad
       | _ => bad
   | ["dump", objs] => match parseNatList? objs with
       | some objs => if inR s objs then (s, showObjs s objs) else bad
@@ -213,6 +278,6 @@ def stepLine (s : St) (ws : List String) : St × String :=
 def stepC (d : Data) (ws : List String) : Data × String :=
   let s := inject d
   let r := stepLine s ws
-  (extract r.1 d (touchedOf s ws), r.2)
+  (extract r.1 d (touchedOf s ws) (dTouchedOf ws), r.2)
 
 def main : IO Unit := loopState Data.empty stepC
